@@ -16,6 +16,15 @@ def _shift_parts(fn, nid):
     return nid, 0
 
 
+def shift_width(fn, nid):
+    """bit width in which the shift of E = (cast) X << S is evaluated (the promoted type of X), None if E is no shift"""
+    s = fn.strip(nid, casts=True)
+    v = fn.nodes.get(s, {})
+    if v.get('k') == 'BinaryOperator' and v.get('op') == '<<':
+        return v.get('w')
+    return None
+
+
 def src_width(fn, nid):
     """bit width of the value before widening casts"""
     s = fn.strip(nid, casts=True)
@@ -51,7 +60,8 @@ def placements(fn, acc):
         for a in arms:
             src, sh = _shift_parts(fn, a)
             out.append({'op': '=' if op == 'init' else op, 'shift': sh, 'src': fn.key(fn.strip(src, casts=True)),
-                        'const': fn.val(a), 'width': src_width(fn, src), 'node': nid, 'line': fn.line_of(nid)})
+                        'const': fn.val(a), 'width': src_width(fn, src), 'shiftw': shift_width(fn, a), 'node': nid,
+                        'line': fn.line_of(nid)})
     return out
 
 
